@@ -100,7 +100,7 @@ type Stats struct {
 	MemoTwinChecks  int64 // twin comparisons answered from the table of executed sequences
 	PrefixRechecks  int64 // times a prefix's hash list was recomputed by another run and compared
 	CrossCfgChecks  int64
-	Vac             [nVac]int64 // per vacuity bit: maximal-length sequences (first config) that exercised it
+	Vac             [][nVac]int64 // per config, per vacuity bit: maximal-length sequences that exercised it
 	Nontrivial      int64
 	Hashes          map[[32]byte]struct{}
 	ShardsDone      int
@@ -259,12 +259,15 @@ func (e *Enumerator) round(l int, final bool) bool {
 			e.Stats.RereadTwins += acc.reread
 			e.Stats.PrefixRechecks += acc.recheck
 			if final {
+				for len(e.Stats.Vac) <= ci {
+					e.Stats.Vac = append(e.Stats.Vac, [nVac]int64{})
+				}
+				for i := range acc.vac {
+					e.Stats.Vac[ci][i] += acc.vac[i]
+				}
 				if ci == 0 {
 					e.Stats.MaxLenSeqs += acc.maxLen
 					e.Stats.Nontrivial += acc.nontriv
-					for i := range acc.vac {
-						e.Stats.Vac[i] += acc.vac[i]
-					}
 				}
 			}
 			for h := range acc.hashes {
@@ -327,15 +330,13 @@ func (e *Enumerator) exec(seq []uint8, r, tw *Runner, memo []uint64, acc *worker
 	acc.ops += int64(len(seq))
 	if final {
 		acc.maxLen++
-		if first {
-			for i := 0; i < nVac; i++ {
-				if r.Vac&(1<<uint(i)) != 0 {
-					acc.vac[i]++
-				}
+		for i := 0; i < nVac; i++ {
+			if r.Vac&(1<<uint(i)) != 0 {
+				acc.vac[i]++
 			}
-			if r.Vac&(VReadDependsOnWrite|VCommitNonEmpty) != 0 {
-				acc.nontriv++
-			}
+		}
+		if first && r.Vac&(VReadDependsOnWrite|VCommitNonEmpty) != 0 {
+			acc.nontriv++
 		}
 	}
 	for _, m := range r.Mismatches {
@@ -363,8 +364,10 @@ func (e *Enumerator) exec(seq []uint8, r, tw *Runner, memo []uint64, acc *worker
 			}
 		}
 	}
-	// twin 3: a Get and an Exists of every key after every op must not change any commit hash
-	if final && r.NCommits > 0 && a.HasRereadOps() {
+	// twin 3: a Get and an Exists of every key after every op must not change any commit hash. Executed
+	// for the read-free sequences with a block commit: a sequence with reads has the same hashes as its
+	// read-free skeleton (twin 1, checked for every sequence), whose twin 3 is executed here.
+	if final && r.NCommits > 0 && a.HasRereadOps() && !a.hasReads(seq) {
 		t := a.WithRereads(seq)
 		tw.Run(t)
 		acc.execs++
